@@ -56,13 +56,13 @@ EXPLANATION: Dict[str, str] = {}
 
 # what each check decides (structural clauses) and what it leaves undecided
 CLAIMS: Dict[str, Tuple[str, str]] = {
-    "C01": ("the wait set before a step (strict has_passed on every predecessor with the connection's minimum delay, awaited to completion), the Progress wake-up protocol, completeness of the progress bound incl. steps in flight, the queue discipline of the pending steps (heappush needs heappop), min-tables independent of registration order, connection tables written by connect only, a delay is never identified by its tiers alone, the atomic publish of a finished step's triggers",
+    "C01": ("the wait set before a step (strict has_passed on every predecessor with the connection's minimum delay, awaited to completion), the Progress wake-up protocol, completeness of the progress bound incl. steps in flight, the queue discipline of the pending steps (heappush needs heappop), min-tables independent of registration order, connection tables written by connect only, a delay is never identified by its tiers alone, the atomic publish of a finished step's triggers; the initial state of a simulator (progress 0, no step in flight), a trigger that has fired already is answered at once, the shift of a wait is the caller's, SimGroup.depth counts the enclosing groups",
             "sufficiency of these local obligations for causality under all interleavings (inductive protocol argument)"),
-    "C02": ("who creates/moves/removes demanded steps, dedup + wake-iff-earlier in schedule_step, self-step iff < until, trigger iff attribute present at output time + delay, popped step == settled progress, bounds see steps in flight; the defaults table that decides which inputs are triggers (all 192 combinations), the trigger test is presence (not value) of the attribute, the simulator type is read alike by the model factory and the runner",
+    "C02": ("who creates/moves/removes demanded steps, dedup + wake-iff-earlier in schedule_step, self-step iff < until, trigger iff attribute present at output time + delay, popped step == settled progress, bounds see steps in flight; the defaults table that decides which inputs are triggers (all 192 combinations), the trigger test is presence (not value) of the attribute, the simulator type is read alike by the model factory and the runner; the initial schedule (exactly one step at time 0 iff the simulator is not event-based), the trigger table is keyed by the source port (src.eid, src_attr)",
             "equality of the executed and the demanded step set over all behaviours"),
-    "C03": ("no mosaik-owned container is aliased into the step inputs (freshness depth), the cache lookup returns the greatest key <= time whatever the insertion order and the pruner keeps every entry it can still return, the producers' progress bounds see steps in flight, set_data inputs are taken and cleared, buffered values are delivered iff popped at the first step >= their due time in production order, the memory is written back only into existing keys, push/pull use the connection's time shift and the reported output time, delay tables are minima; every entity carries the model of its own type (child entities are classified by their own attribute sets)",
+    "C03": ("no mosaik-owned container is aliased into the step inputs (freshness depth), the cache lookup returns the greatest key <= time whatever the insertion order and the pruner keeps every entry it can still return, the producers' progress bounds see steps in flight, set_data inputs are taken and cleared, buffered values are delivered iff popped at the first step >= their due time in production order, the memory is written back only into existing keys, push/pull use the connection's time shift and the reported output time, delay tables are minima; every entity carries the model of its own type (child entities are classified by their own attribute sets); writer/reader agreement of the data-flow tables (source port, destination port, the source's full id, the source attribute in the output request, initial data looked up per source attribute), the output cache holds a copy of the reply's two levels (not the simulator's own object), merge helpers with a depth argument are decided by abstract interpretation (level summaries)",
             "value-level equality of inputs with the producers' histories; sub-time of weak delays on the data path (known finding W1, rule R21)"),
-    "C04": ("registration-order independence of every derived table (min-tables under a total order on same-shape operands), the wait sets (predecessors, async consumers unconditionally, all consumers under lazy stepping), confinement of lazy_stepping and rt_strict (pass-through only), the reply of a simulator is only read and reaches the scheduler unchanged (in-process and remote agree), cache on/off agreement at the structural points where they differed (aliasing, floor entry), write-back discipline; progress bounds see the step in flight until its outputs are fetched (not only while step() runs)",
+    "C04": ("registration-order independence of every derived table (min-tables under a total order on same-shape operands), the wait sets (predecessors, async consumers unconditionally, all consumers under lazy stepping), confinement of lazy_stepping and rt_strict (pass-through only), the reply of a simulator is only read and reaches the scheduler unchanged (in-process and remote agree), cache on/off agreement at the structural points where they differed (aliasing, floor entry), write-back discipline; progress bounds see the step in flight until its outputs are fetched (not only while step() runs); the output cache does not alias the reply of an in-process simulator (D28), port keys of the data-flow tables",
             "equality of observation sequences across interleavings and across the cache/push paths in general"),
     "C05": ("no lost wake-up (Progress, next_step_settled), every wait target is dominated by a bound containing until, progress bounds are minima over all step sources, comparison sites of the partial interval order; nothing mutable is created in a class body and shared by all proxies (a class-level lock), future-dated output times start at sub-step 0",
             "absence of deadlock for all accepted scenarios (liveness of the whole protocol)"),
@@ -82,13 +82,13 @@ CLAIMS: Dict[str, Tuple[str, str]] = {
             "the value-level input/output relation of parse_attrs over all concrete descriptions"),
     "C13": ("decision table of scheduler.step / get_outputs over the reply: every malformed reply class has a dominating SimulationError naming the simulator and precedes every effect; what is validated is the reply itself (SimRunner, adapters and remote proxy return exactly the awaited forward, no conversion, no edit, handlers re-raise); the popped step is never re-inserted; factory and runner read the announced type alike (the runner's copy decides what is demanded of the reply), an exception of a plain in-process method is not caught by the generator-protocol handler",
             "reply classes not listed in the statement"),
-    "C14": ("cleanup is reached from every exit of run() (try/finally), covers every simulator, is exception-isolated and idempotent, closes channel / reader task / server socket / loop on every path; every created task has an owner that awaits it concurrently and cancels + drains it on failure and cancellation exits; the reader task cannot await itself; connection loss becomes a SimulationError naming the simulator; no wrapper on the way swallows a simulator's exception (handlers re-raise, no normal return from a handler); a created coroutine of the package is awaited or handed on (never returned un-awaited from a coroutine), adapters do not re-send or swallow",
+    "C14": ("cleanup is reached from every exit of run() (try/finally), covers every simulator, is exception-isolated and idempotent, closes channel / reader task / server socket / loop on every path; every created task has an owner that awaits it concurrently and cancels + drains it on failure and cancellation exits; the reader task cannot await itself; connection loss becomes a SimulationError naming the simulator; no wrapper on the way swallows a simulator's exception (handlers re-raise, no normal return from a handler); a created coroutine of the package is awaited or handed on (never returned un-awaited from a coroutine), adapters do not re-send or swallow; RemoteProxy.stop closes the channel before it waits for the reader task, no break ends the stop loop of shutdown early",
             "promptness (timing), behaviour for each crash point, child-process reaping, faults inside mosaik_api_v3"),
     "C15": ("request shapes of every Proxy.send site (step: exactly 3 positional arguments, no keyword arguments), the feature/adapter table (max_advance, setup_done, missing type), thresholds and nesting order of the adapters for representative versions, the two rejections dominate the wrapping, configured and reported versions are parsed alike, in-process time_resolution handling, adapters are transparent for errors (no forward inside a swallowing try) and the meta they adapt is one stable object",
             "'sees the same scheduling and data as a current-version simulator' (behaviour)"),
     "C16": ("the producer waits unconditionally for its async consumers, set_data/get_data are gated by _assert_async_requests (ScenarioError for both missing-connection cases) before any access, set_data inputs are consumed exactly once (take and clear), connect_async_requests fills successors, successors_to_wait_for and input_delays; the producer's bound sees the step in flight until its outputs are fetched",
             "the ordering clause over executions"),
-    "C17": ("set_event decision table (error outside real-time mode before any effect, schedule iff < until else warn, lifted to the simulator's tiers), rt_factor validated and scaled by time_resolution before it is stored, real-time progress term, polling wait with timeout=rt_factor, rt_check table (RuntimeError iff rt_strict), rt_strict confined, rt_start exists before any process runs and is read off the clock when the processes are created; a self-step is pushed onto the heap of pending steps (pending external events survive), the world's until / rt_factor exist before run() first suspends",
+    "C17": ("set_event decision table (error outside real-time mode before any effect, schedule iff < until else warn, lifted to the simulator's tiers), rt_factor validated and scaled by time_resolution before it is stored, real-time progress term, polling wait with timeout=rt_factor, rt_check table (RuntimeError iff rt_strict), rt_strict confined, rt_start exists before any process runs and is read off the clock when the processes are created; a self-step is pushed onto the heap of pending steps (pending external events survive), the world's until / rt_factor exist before run() first suspends; the real-time term is ceil((perf_counter() - rt_start) / rt_factor): rounded up, not down",
             "every wall-clock clause (timing is a runtime quantity)"),
     "C18": ("returned set == set of destinations passed to connect (same loop nest, same conditions, over every return), exactly one connect per source in connect_many_to_one and on every path of _connect_randomly, chunk stride == window width in _connect_evenly, per-destination bookkeeping (count from 0, ++, removal iff count >= max_connects) on every path whose guard does not bound the number of sources by max_connects, entities are distinct set members / dict keys (identity or unique-id equality); a request is refused up front iff len(src_set) > len(dest_set) * max_connects, no container default is changed from call to call",
             "the numeric clauses (difference <= 1 over all random draws; D6)"),
